@@ -56,7 +56,7 @@ struct Counters
 {
 	uint64_t plans, ops, dispatches, queuedDispatches, filterCalls, filterBlocked, filterModified, filtersRemovedFromFilter, listenerCalls, mixCalls, mixBlocked,
 		stoppedByPolicy, conditionTrue, conditionFalse, adaptedCalls, sharedAdaptedCalls, copies, faultRuns, faultsInjected, faultsByKind[F_KINDS], opsFailedByFault;
-	uint64_t perVariant[V_COUNT + 2];
+	uint64_t perVariant[V_COUNT + 3];
 };
 extern Counters counters;
 
@@ -117,7 +117,7 @@ struct CfgDisp
 {
 	typedef eventpp::EventDispatcher<int, void (int, Payload), Pol0> D;
 	typedef D::Handle Handle; typedef D::FilterHandle FHandle;
-	enum { queue = 0, mixes = 0, conv = 0 };
+	enum { queue = 0, mixes = 0, conv = 0, keyarg = 0 };
 	static FHandle addFilter(D & d, const FilterFn & f) { return d.appendFilter(f); }
 	static bool removeFilter(D & d, const FHandle & h) { return d.removeFilter(h); }
 	static Handle addListener(D & d, int k, int how, const ListenerFn & f) { return how ? d.prependListener(k, f) : d.appendListener(k, f); }
@@ -128,7 +128,7 @@ struct CfgDispMix
 {
 	typedef eventpp::EventDispatcher<int, void (int, Payload), Pol1> D;
 	typedef D::Handle Handle; typedef D::FilterHandle FHandle;
-	enum { queue = 0, mixes = 1, conv = 0 };
+	enum { queue = 0, mixes = 1, conv = 0, keyarg = 0 };
 	static FHandle addFilter(D & d, const FilterFn & f) { return d.appendFilter(f); }
 	static bool removeFilter(D & d, const FHandle & h) { return d.removeFilter(h); }
 	static Handle addListener(D & d, int k, int how, const ListenerFn & f) { return how ? d.prependListener(k, f) : d.appendListener(k, f); }
@@ -141,18 +141,38 @@ struct CfgDispPlain
 {
 	typedef eventpp::EventDispatcher<int, void (int, Payload), PolPlain> D;
 	typedef D::Handle Handle; typedef D::FilterHandle FHandle;
-	enum { queue = 0, mixes = 0, conv = 2 };
+	enum { queue = 0, mixes = 0, conv = 2, keyarg = 0 };
 	static FHandle addFilter(D & d, const FilterFn & f) { return d.appendFilter(f); }
 	static bool removeFilter(D & d, const FHandle & h) { return d.removeFilter(h); }
 	static Handle addListener(D & d, int k, int how, const ListenerFn & f) { return how ? d.prependListener(k, f) : d.appendListener(k, f); }
 	static bool removeListener(D & d, int k, const Handle & h) { return d.removeListener(k, h); }
 	static void dispatch(D & d, int k, int a, int pv, bool temps, bool) { if(temps) d.dispatch(k, a + 0, Payload(4000, pv)); else { Payload p(4000, pv); d.dispatch(k, a, p); } }
 };
+// The event is the first prototype argument itself and the getEvent policy hands out a REFERENCE to it; the filters are entitled to
+// modify that argument. The listeners that run are those of the event the caller dispatched - "the event that the getEvent policy
+// yields from the call's own arguments" -, and they see the modified argument.
+struct PolKeyRef
+{
+	typedef eventpp::MixinList<eventpp::MixinFilter> Mixins;
+	static const int & getEvent(const int & a, const Payload &) { return a; }
+};
+struct CfgDispKeyRef
+{
+	typedef eventpp::EventDispatcher<int, void (int, Payload), PolKeyRef> D;
+	typedef D::Handle Handle; typedef D::FilterHandle FHandle;
+	enum { queue = 0, mixes = 0, conv = 0, keyarg = 1 };
+	static FHandle addFilter(D & d, const FilterFn & f) { return d.appendFilter(f); }
+	static bool removeFilter(D & d, const FHandle & h) { return d.removeFilter(h); }
+	static Handle addListener(D & d, int k, int how, const ListenerFn & f) { return how ? d.prependListener(k, f) : d.appendListener(k, f); }
+	static bool removeListener(D & d, int k, const Handle & h) { return d.removeListener(k, h); }
+	// a == k here (see the interpreter): the event-included form, the first argument is the event
+	static void dispatch(D & d, int, int a, int pv, bool temps, bool) { if(temps) d.dispatch(a + 0, Payload(4000, pv)); else { Payload p(4000, pv); d.dispatch(a, p); } }
+};
 struct CfgQueue
 {
 	typedef eventpp::EventQueue<int, void (int, Payload), Pol0> D;
 	typedef D::Handle Handle; typedef D::FilterHandle FHandle;
-	enum { queue = 1, mixes = 0, conv = 0 };
+	enum { queue = 1, mixes = 0, conv = 0, keyarg = 0 };
 	static FHandle addFilter(D & d, const FilterFn & f) { return d.appendFilter(f); }
 	static bool removeFilter(D & d, const FHandle & h) { return d.removeFilter(h); }
 	static Handle addListener(D & d, int k, int how, const ListenerFn & f) { return how ? d.prependListener(k, f) : d.appendListener(k, f); }
@@ -168,7 +188,7 @@ struct CfgHeter
 {
 	typedef eventpp::HeterEventDispatcher<int, eventpp::HeterTuple<void (int, Payload), void ()>, Pol3> D;
 	typedef D::Handle Handle; typedef D::FilterHandle FHandle;
-	enum { queue = 0, mixes = 0, conv = 0 };
+	enum { queue = 0, mixes = 0, conv = 0, keyarg = 0 };
 	static FHandle addFilter(D & d, const FilterFn & f) { return d.appendFilter(f); }
 	static bool removeFilter(D & d, const FHandle & h) { return d.removeFilter(h); }
 	static Handle addListener(D & d, int k, int how, const ListenerFn & f) { return how ? d.prependListener(k, f) : d.appendListener(k, f); }
@@ -199,7 +219,7 @@ struct CfgHeterConv
 {
 	typedef eventpp::HeterEventDispatcher<int, eventpp::HeterTuple<void (long, Payload), void (int, Payload)>, Pol3> D;
 	typedef D::Handle Handle; typedef D::FilterHandle FHandle;
-	enum { queue = 0, mixes = 0, conv = 1 };
+	enum { queue = 0, mixes = 0, conv = 1, keyarg = 0 };
 	static FHandle addFilter(D & d, const FilterFn & f) { if(f.id % 2 == 0) return d.appendFilter(FilterLongFn(f.id)); return d.appendFilter(f); }
 	static bool removeFilter(D & d, const FHandle & h) { return d.removeFilter(h); }
 	static Handle addListener(D & d, int k, int how, const ListenerFn & f) { return how ? d.prependListener(k, f) : d.appendListener(k, f); }
@@ -375,11 +395,12 @@ struct FilterInterp : Sink
 		case O_DISPATCH: case O_QDISPATCH: {
 			const bool queued = op.k == O_QDISPATCH && C::queue;
 			++counters.dispatches; if(queued) ++counters.queuedDispatches;
-			curA = op.a; curP = op.b; curKey = k;
+			const int arg = C::keyarg ? k : op.a;
+			curA = arg; curP = op.b; curKey = k;
 			fsnap.clear(); for(size_t i = 0; i < filters.size(); ++i) if(C::conv != 1 || filters[i].id % 2 == 0) fsnap.push_back(filters[i].id);
 			lsnap = listeners[k];
 			fpos = 0; lpos = 0; blocked = false; stage = 0; inDispatch = true;
-			try { FaultArm arm; C::dispatch(*disp, k, op.a, op.b, (op.c & 1) != 0, queued); }
+			try { FaultArm arm; C::dispatch(*disp, k, arg, op.b, (op.c & 1) != 0, queued); }
 			catch(...) { inDispatch = false; throw; }
 			inDispatch = false;
 			if(viol.set) return;
@@ -791,6 +812,8 @@ void runVariant5(const Plan & p, RunOut & o) { runInterp<WrapInterp>(p, o); }
 void runVariant6(const Plan & p, RunOut & o) { runInterp<FilterInterp<CfgHeterConv> >(p, o); }
 #elif SEQ_VARIANT == 7
 void runVariant7(const Plan & p, RunOut & o) { runInterp<FilterInterp<CfgDispPlain> >(p, o); }
+#elif SEQ_VARIANT == 8
+void runVariant8(const Plan & p, RunOut & o) { runInterp<FilterInterp<CfgDispKeyRef> >(p, o); }
 #endif
 
 } // namespace sf
@@ -802,7 +825,7 @@ Sink * g_sink = nullptr;
 Counters counters;
 void runVariant0(const Plan &, RunOut &); void runVariant1(const Plan &, RunOut &); void runVariant2(const Plan &, RunOut &);
 void runVariant3(const Plan &, RunOut &); void runVariant4(const Plan &, RunOut &); void runVariant5(const Plan &, RunOut &);
-void runVariant6(const Plan &, RunOut &); void runVariant7(const Plan &, RunOut &);
+void runVariant6(const Plan &, RunOut &); void runVariant7(const Plan &, RunOut &); void runVariant8(const Plan &, RunOut &);
 }
 
 namespace engine {
@@ -818,7 +841,8 @@ void generate(uint64_t seed, Plan & plan)
 	Rng rng(seed);
 	plan.setSchedSeed(rng.next());
 	// mode c12k: only the conversion variant of the heterogeneous dispatcher (variant 6), which documents a recorded, unrepaired defect
-	const int variant = mode == "c12k" ? 6 : mode == "c12p" ? 7 : mode == "c10" ? (int)rng.below(4) : (int)rng.below(V_COUNT);
+	int variant = mode == "c04k" ? 8 : mode == "c12k" ? 6 : mode == "c12p" ? 7 : mode == "c10" ? (int)rng.below(4) : (int)rng.below(V_COUNT + 1);
+	if(variant == V_COUNT) variant = 8; // the by-reference getEvent policy behind MixinFilter
 	plan.user(U_VARIANT) = variant;
 	plan.tasks.assign(1, OpList());
 	OpList & ops = plan.tasks[0];
@@ -863,10 +887,10 @@ void execute(const Plan & plan, RunOut & out)
 	const int v = plan.user(sf::U_VARIANT);
 	switch(v) {
 	case 0: sf::runVariant0(plan, out); break; case 1: sf::runVariant1(plan, out); break; case 2: sf::runVariant2(plan, out); break;
-	case 3: sf::runVariant3(plan, out); break; case 4: sf::runVariant4(plan, out); break; case 6: sf::runVariant6(plan, out); break; case 7: sf::runVariant7(plan, out); break; default: sf::runVariant5(plan, out); break;
+	case 3: sf::runVariant3(plan, out); break; case 4: sf::runVariant4(plan, out); break; case 6: sf::runVariant6(plan, out); break; case 7: sf::runVariant7(plan, out); break; case 8: sf::runVariant8(plan, out); break; default: sf::runVariant5(plan, out); break;
 	}
 	++sf::counters.plans;
-	if(v >= 0 && v <= sf::V_COUNT + 1) ++sf::counters.perVariant[v];
+	if(v >= 0 && v <= sf::V_COUNT + 2) ++sf::counters.perVariant[v];
 	bool focus = false;
 	if(!plan.tasks.empty()) for(size_t i = 0; i < plan.tasks[0].size(); ++i) if(plan.tasks[0][i].k == sf::O_DISPATCH || plan.tasks[0][i].k == sf::O_QDISPATCH) focus = true;
 	out.nontrivial = focus;
@@ -877,11 +901,12 @@ std::string describe(const Plan & plan)
 	static const char * vn[] = { "EventDispatcher+MixinFilter", "EventDispatcher+MixinList<MixA,MixinFilter,MixB>", "EventQueue+MixinFilter", "HeterEventDispatcher+MixinHeterFilter",
 		"canContinueInvoking on CallbackList/EventDispatcher", "conditionalFunctor/argumentAdapter listeners",
 		"HeterEventDispatcher<{void(long,Payload), void(int,Payload)}>+MixinHeterFilter, int arguments",
-		"EventDispatcher+MixinList<PlainMix (no interceptor), MixinFilter>" };
+		"EventDispatcher+MixinList<PlainMix (no interceptor), MixinFilter>",
+		"EventDispatcher+MixinFilter, event = first argument through a getEvent policy returning a reference; filters modify that argument" };
 	static const char * names[] = { "?", "addFilter", "removeFilter", "addListener", "removeListener", "dispatch", "queuedDispatch", "setMixinVerdict", "continueWithCopy", "continueWithCopyAssigned" };
 	std::ostringstream o;
 	const int v = plan.user(sf::U_VARIANT);
-	o << (v >= 0 && v <= sf::V_COUNT + 1 ? vn[v] : "?") << " :";
+	o << (v >= 0 && v <= sf::V_COUNT + 2 ? vn[v] : "?") << " :";
 	if(!plan.tasks.empty()) for(size_t i = 0; i < plan.tasks[0].size(); ++i) {
 		const Op & op = plan.tasks[0][i];
 		o << " " << (op.k >= 1 && op.k < sf::O_KINDS ? names[op.k] : "?");
@@ -906,7 +931,7 @@ void statsJson(std::string & out)
 	  << ",\"faults\":{\"fault_runs\":" << c.faultRuns << ",\"injected_total\":" << c.faultsInjected << ",\"alloc\":" << c.faultsByKind[F_ALLOC] << ",\"copy\":" << c.faultsByKind[F_COPY]
 	  << ",\"move\":" << c.faultsByKind[F_MOVE] << ",\"call\":" << c.faultsByKind[F_CALL] << ",\"operations_failed_by_fault\":" << c.opsFailedByFault << "}"
 	  << ",\"per_variant\":[";
-	for(int i = 0; i < sf::V_COUNT; ++i) o << (i ? "," : "") << c.perVariant[i];
+	for(int i = 0; i < sf::V_COUNT + 3; ++i) o << (i ? "," : "") << c.perVariant[i];
 	o << "]";
 	out += o.str();
 }
